@@ -1646,6 +1646,7 @@ class Executor(Engine):
         c = self.ctx
         if not isinstance(d, VDict):
             raise Unsupported("iteration over .items() of " + type(d).__name__)
+        c.trusted.add("dict iteration visits each key exactly once, in some order (the order itself is left unspecified)")
         keys = c.fresh("keys", ("list", d.kty))
         i, j = c.bvar("i", "Int"), c.bvar("j", "Int")
         rng = lambda t: And(Le(Int(0), t), Lt(t, keys.n))
